@@ -1,5 +1,6 @@
 mod codec;
 mod http;
+mod durrun;
 mod sched;
 mod storegen;
 mod storerun;
@@ -30,6 +31,9 @@ fn main() {
             let clock = arg_val(&args, "--clock").map(|s| s.parse().unwrap());
             worker::run(dir, clock, args.iter().any(|a| a == "--gate-gc"), args.iter().any(|a| a == "--http"));
         }
+        "dur-child" => durrun::child(&args),
+        "dur-recover" => durrun::recover(&args),
+        "dur-killat" => durrun::killat(&args),
         "store-gen" => {
             let seed: u64 = arg_val(&args, "--seed").map(|s| s.parse().unwrap()).unwrap_or(0);
             let n: i64 = arg_val(&args, "--n").map(|s| s.parse().unwrap()).unwrap_or(10);
@@ -174,7 +178,7 @@ fn main() {
             println!("{{\"scenarios\": {n}, \"events\": {nev}}}");
         }
         _ => {
-            eprintln!("usage: xsv worker|store-gen|store-replay|sched-one|sched-run ...");
+            eprintln!("usage: xsv worker|store-gen|store-replay|sched-one|sched-run|dur-child|dur-recover|dur-killat ...");
             std::process::exit(2);
         }
     }
